@@ -335,7 +335,17 @@ func isState(r *sdcpb.GetSchemaResponse) bool {
 
 func (d *Datastore) storeSyncMsg(ctx context.Context, syncup *target.SyncUpdate, sem *semaphore.Weighted, prevWritten <-chan struct{}, written chan<- struct{}) {
 	defer sem.Release(1)
-	defer close(written)
+	defer func() {
+		// also when nothing is written (e.g. the conversion failed): whoever waits for this notification
+		// must not pass the earlier ones
+		if prevWritten != nil {
+			select {
+			case <-prevWritten:
+			case <-ctx.Done():
+			}
+		}
+		close(written)
+	}()
 
 	converter := utils.NewConverter(d.schemaClient)
 
